@@ -867,8 +867,8 @@ pub fn sched_specs(prop: &str, tier: &str) -> Vec<HistSpec> {
     let mut out = vec![];
     match prop {
         "C03" | "C05" => {
-            {
-                let mut s = long_queue_spec(prop, if thorough { 1100 } else { 300 }, true);
+            for votes in [true, false] {
+                let mut s = long_queue_spec(prop, if thorough { 1100 } else { 300 }, votes);
                 s.crash = true;
                 s.crash_final_only = true;
                 s.o_c03 = prop == "C03";
